@@ -908,3 +908,30 @@ def _fixed_len(v):
 
 def _range_comp(c):
     return any(isinstance(g.iter, ast.Call) and is_name(g.iter.func, 'range') for g in c.generators)
+
+
+def check_tight_delimiters(ctx, rid):
+    """strip_whitespace (also under reindent / reindent_aligned) removes the whitespace behind "(", in front of ")" and in front of a
+    comma.  That is only safe if the delimiter cannot join the token next to it: for every token x of a representative set,
+    "(" x ")" and x "," written without blanks must lex to the same tokens as with blanks."""
+    from .tables import get_tables
+    T = get_tables(ctx)
+    atoms = ['a', 'desc', 'select', '1', '1.5', '.', '=', '<', '<=', '*', '/', '-', '+', '||', '::', ':=', "'s'", '"n"', '`n`', '$1', ':p', '?', '%s', '@v', '#t', '[x]',
+             '%', '^', '&', '|', '~', '!', '!=', 'é', '{', '}', '$$x$$', '0xFF', '1e3', '+1', '-1']
+    kwloc = T.kwmod.relpath
+
+    def toks(text):
+        return [(repr(tt), v) for tt, v, _ in T.lex_all(text) if v.strip() != '' or True]
+
+    def sig(text):
+        return [(tt, v) for tt, v in toks(text) if v.strip() != '']
+    bad = []
+    n = 0
+    for x in atoms:
+        for tight, spaced in (('(' + x + ')', '( ' + x + ' )'), (x + ',', x + ' ,'), ('(' + x, '( ' + x), (x + ')', x + ' )'), ('(' + x + ',' + x + ')', '( ' + x + ' , ' + x + ' )')):
+            n += 1
+            a, b = sig(tight), sig(spaced)
+            if a != b:
+                bad.append(f'{spaced!r} lexes to {[v for _, v in b]} but {tight!r} to {[v for _, v in a]}')
+    ctx.ob(rid, 'tight-delimiters', kwloc, f'removing the whitespace next to "(", ")" and "," never joins tokens ({n} combinations over {len(atoms)} token spellings, lexed with the table)',
+           not bad, f'{len(bad)} combination(s), e.g. {bad[:2]}: strip_whitespace turns the spaced form into the tight one, so tokens are fused or re-typed by formatting')
